@@ -3,6 +3,7 @@ package rules
 import (
 	"fmt"
 	"go/token"
+	"go/types"
 	"os"
 	"strings"
 
@@ -654,7 +655,7 @@ func c05(w *core.World, r *core.Report) {
 	ruleOldPrioDelete(w, r, low)
 
 	// ---- DETACHED-CONTEXT
-	r.Rule("DETACHED-CONTEXT", 1, "the rollback started by the expired timer runs with a context that is not tied to any request: the ctx argument of TransactionManager.Rollback in Transaction.rollback originates from context.Background()/TODO() (possibly wrapped by context.With*), never from a field, parameter or the registering request's context - that one is cancelled as soon as the TransactionSet RPC returns, long before the timeout.")
+	r.Rule("DETACHED-CONTEXT", 1, "the rollback timer and the rollback it starts are not tied to any request: a goroutine of TransactionCancelTimer waits on no context's Done() unless that context is detached (context.Background()/TODO(), possibly wrapped, followed through parameters to all call sites), and the ctx argument of TransactionManager.Rollback in Transaction.rollback originates from context.Background()/TODO() (possibly wrapped by context.With*), never from a field, parameter or the registering request's context - that one is cancelled as soon as the TransactionSet RPC returns, long before the timeout.")
 	for _, tr := range tcbs {
 		n := 0
 		for _, c := range core.CallsTo(tr, "datastore/types.TransactionManager.Rollback") {
@@ -665,6 +666,43 @@ func c05(w *core.World, r *core.Report) {
 		}
 		if n == 0 {
 			r.Undecided("DETACHED-CONTEXT", core.Site(tr, "Rollback"), w.Pos(tr.Pos()), "Transaction.rollback does not call TransactionManager.Rollback")
+		}
+	}
+
+	// the timer itself must outlive the request that armed it: a goroutine of TransactionCancelTimer that also waits on
+	// a context's Done() ends, without rolling back, as soon as that context does; only a detached one may be waited on
+	for _, f := range w.RepoFns {
+		top := f
+		for top.Parent() != nil {
+			top = top.Parent()
+		}
+		if f == top || top.Signature.Recv() == nil || core.TypeKey(top.Signature.Recv().Type()) != "datastore/types.TransactionCancelTimer" {
+			continue
+		}
+		for _, b := range f.Blocks {
+			for _, in := range b.Instrs {
+				var chans []ssa.Value
+				switch x := in.(type) {
+				case *ssa.Select:
+					for _, st := range x.States {
+						if st.Dir == types.RecvOnly {
+							chans = append(chans, st.Chan)
+						}
+					}
+				case *ssa.UnOp:
+					if x.Op == token.ARROW {
+						chans = append(chans, x.X)
+					}
+				}
+				for _, ch := range chans {
+					for _, oc := range core.OriginCalls(ch) {
+						if !core.CalleeIs(oc, "context.Context.Done") {
+							continue
+						}
+						r.Check(detachedContextIP(w, core.CallRecv(oc), 0), "DETACHED-CONTEXT", core.Site(top, "timer goroutine waits on a context"), w.InstrPos(in), "the rollback timer ends with this context: armed with the context of the TransactionSet request (cancelled when the RPC returns) it never fires, the transaction is never rolled back and stays registered")
+					}
+				}
+			}
 		}
 	}
 
@@ -874,6 +912,58 @@ func detachedContext(v ssa.Value, depth int) bool {
 		case strings.HasPrefix(k, "context.With") && len(c.Call.Args) > 0:
 			if !detachedContext(c.Call.Args[0], depth+1) {
 				return false
+			}
+		default:
+			return false
+		}
+	}
+	return true
+}
+
+// detachedContextIP is detachedContext that follows parameters to the arguments of all static call sites in the
+// repository and variables captured by closures to what is stored into them.
+func detachedContextIP(w *core.World, v ssa.Value, depth int) bool {
+	if depth > 6 {
+		return false
+	}
+	os := core.OriginsThroughCaptures(v)
+	if len(os) == 0 {
+		return false
+	}
+	for _, o := range os {
+		switch x := o.(type) {
+		case *ssa.Call:
+			switch k := core.CalleeKey(x); {
+			case k == "context.Background" || k == "context.TODO":
+			case strings.HasPrefix(k, "context.With") && len(x.Call.Args) > 0:
+				if !detachedContextIP(w, x.Call.Args[0], depth+1) {
+					return false
+				}
+			default:
+				return false
+			}
+		case *ssa.Parameter:
+			fn := x.Parent()
+			idx := -1
+			for i, p := range fn.Params {
+				if p == x {
+					idx = i
+				}
+			}
+			sites := 0
+			for _, g := range w.RepoFns {
+				for _, c := range core.OwnCalls(g) {
+					if c.Common().StaticCallee() != fn || idx < 0 || idx >= len(c.Common().Args) {
+						continue
+					}
+					sites++
+					if !detachedContextIP(w, c.Common().Args[idx], depth+1) {
+						return false
+					}
+				}
+			}
+			if sites == 0 {
+				return false // an entry point: the context is the caller's (a request)
 			}
 		default:
 			return false
